@@ -1068,7 +1068,23 @@ mod api {
                     else if again.get_suggestions().get(again.previously_selected_index()) != Some(&text) { Some(json!({"clause": "C09 C10 the committed row is the choice that is learned (user auto-correct entry with an empty replacement)", "history": s.history(), "observed": show(&again), "expected": text})) }
                     else { None };
                 s.finish();
-                out
+                if out.is_some() { return out; }
+                // the entry goes away again (the user repairs the file): what was learned while it was there is the row that was shown
+                let _ = std::fs::remove_file(crate::verif_driver::user_file_path("autocorrect.json"));
+                let mut f = Sess::new(cfgv.clone());
+                let a = f.typ("ami").unwrap(); f.finish();
+                if a.get_suggestions().get(a.previously_selected_index()) != Some(&text) {
+                    return Some(json!({"clause": "C09 C10 the row committed while the user's auto-correct list had an entry with an empty string is the choice recalled once the entry is gone", "history": {"config": cfgv, "events": "autocorrect.json = doc; type ami; commit the last row; remove autocorrect.json; new context; type ami", "autocorrect.json": doc}, "observed": show(&a), "expected": text}));
+                }
+                // and the other way round: a choice learned without the entry stays inside the list, and is the preselected row, once the entry appears
+                std::fs::write(crate::verif_driver::user_file_path("autocorrect.json"), doc).unwrap();
+                let mut g = Sess::new(cfgv.clone());
+                let b = g.typ("ami").unwrap(); g.finish();
+                if let Some(e) = check_sg(&b, Some("ami")) { return Some(json!({"clause": format!("C02 C10 {} (choice learned before the entry with an empty string appeared)", e), "history": {"config": cfgv, "events": "learn the last row of ami; autocorrect.json = doc; new context; type ami", "autocorrect.json": doc}, "observed": show(&b)})); }
+                if b.get_suggestions().get(b.previously_selected_index()) != Some(&text) {
+                    return Some(json!({"clause": "C09 C10 a learned choice is still the preselected row after the user's auto-correct list got an entry with an empty string", "history": {"config": cfgv, "events": "learn the last row of ami; autocorrect.json = doc; new context; type ami", "autocorrect.json": doc}, "observed": show(&b), "expected": text}));
+                }
+                None
             }));
             match r {
                 Err(_) => o.fail(json!({"clause": "C01 C10 user auto-correct entries with empty strings never stop the keyboard (panic)", "history": {"config": cfgv, "file": "autocorrect.json", "content": doc, "events": "type ami; commit the last row; type ami"}})),
@@ -1648,7 +1664,7 @@ mod api {
 
     /// C18: every emoticon / emoji name of the tables (tables parsed from the emojicon sources by tools/gen_tables.py)
     pub(crate) fn emoji_tables(bound: usize, shard: usize, nshards: usize) -> Value {
-        let mut o = Out::new("emoji_tables", bound, "every emoticon and every English emoji name of the emojicon tables that is typeable, bare (quick: every 4th) and wrapped in parentheses, phonetic mode; every Bengali name through create_dictionary_suggestion is covered by the fixed_api check only for layout-typeable names");
+        let mut o = Out::new("emoji_tables", bound, "every emoticon and every English emoji name of the emojicon tables that is typeable, bare (quick: every 4th) and wrapped in parentheses, phonetic mode; every Bengali emoji name (quick: every 4th), bare and in parentheses, typed in fixed mode through a layout file generated for the purpose (one key slot per code point of the names; helpers off) whenever the composition equals the name; expected emoji read from the emojicon sources by tools/gen_tables.py, not from the engine's look-up functions");
         let tables: Value = serde_json::from_str(&std::fs::read_to_string(crate::verif_driver::gen_file("emoji_tables.json")).unwrap_or("{}".into())).unwrap_or(json!({}));
         let data = crate::data::Data::new(&make_config(&phon_cfg(json!({}))));
         let step = if bound >= 2 { 1 } else { 4 };
@@ -1663,7 +1679,7 @@ mod api {
                 for e in tables["emoticons"].as_array().cloned().unwrap_or_default() {
                     let e = e.as_str().unwrap().to_string();
                     if !typeable(&e) { continue; }
-                    let emoji = match data.get_emoji_by_emoticon(&e) { Some(x) => x.to_string(), None => continue };
+                    let emoji = match tables["emoticon_map"][&e].as_str() { Some(x) => x.to_string(), None => continue };
                     o.cases += 1;
                     let sg = s.typ(&e).unwrap(); s.finish();
                     let list = texts(&sg);
@@ -1680,7 +1696,7 @@ mod api {
             idx += 1;
             if idx % step != 0 || (idx / step) % nshards != shard || !typeable(&e) { continue; }
             o.cases += 1;
-            let emoji = match data.get_emoji_by_emoticon(&e) { Some(x) => x.to_string(), None => continue };
+            let emoji = match tables["emoticon_map"][&e].as_str() { Some(x) => x.to_string(), None => continue };
             let mut s = Sess::new(cfgv.clone());
             let sg = s.typ(&e).unwrap();
             let list = texts(&sg);
@@ -1692,8 +1708,8 @@ mod api {
             let n = n.as_str().unwrap().to_string();
             idx += 1;
             if idx % step != 0 || (idx / step) % nshards != shard || !typeable(&n) || !n.chars().all(|c| c.is_ascii_alphanumeric()) { continue; }
-            if data.get_emoji_by_emoticon(&n).is_some() { continue; }
-            let emojis: Vec<String> = match data.get_emoji_by_name(&n) { Some(i) => i.map(|x| x.to_string()).collect(), None => continue };
+            if tables["emoticon_map"].get(&n).is_some() { continue; }
+            let emojis: Vec<String> = match tables["names_map"][&n].as_array() { Some(a) => a.iter().map(|x| x.as_str().unwrap().to_string()).collect(), None => continue };
             for wrapped in [false, true] {
                 o.cases += 1;
                 let text = if wrapped { format!("({})", n) } else { n.clone() };
@@ -1708,6 +1724,70 @@ mod api {
                 o.nontrivial += 1;
             }
             o.sample(json!({"name": n, "emoji": emojis}));
+        }
+        // Bengali emoji names, fixed mode.  A layout file is generated: every code point of the names (and the two parentheses) gets
+        // its own key slot, so every name can be typed code point by code point; helpers are off.  Where the composition the engine
+        // reports differs from the name (the fixed method re-arranges some sequences) the name is skipped -- and counted.
+        {
+            let kt: Value = serde_json::from_str(&std::fs::read_to_string(crate::verif_driver::gen_file("keytable.json")).unwrap_or("[]".into())).unwrap_or(json!([]));
+            let mains: Vec<(u16, String)> = kt.as_array().cloned().unwrap_or_default().iter().filter(|r| r["kind"] == "main").map(|r| (r["code"].as_u64().unwrap() as u16, r["name"].as_str().unwrap().to_string())).collect();
+            let bn = tables["bengali_map"].as_object().cloned().unwrap_or_default();
+            let mut cps: std::collections::BTreeSet<char> = bn.keys().flat_map(|k| k.chars()).collect();
+            cps.insert('('); cps.insert(')');
+            let mut raw: Value = serde_json::from_str(&std::fs::read_to_string(crate::verif_driver::synthetic_layout()).unwrap()).unwrap();
+            let mut slot: std::collections::HashMap<char, (u16, u8)> = std::collections::HashMap::new();
+            {
+                let lay = raw["layout"].as_object_mut().unwrap();
+                for (_, name) in mains.iter() { for m in ["Normal", "AltGr"] { lay.insert(format!("Key_{}_{}", name, m), json!("")); } }
+                let mut it = cps.iter();
+                'fill: for m in [0u8, 2u8] { for (code, name) in mains.iter() {
+                    match it.next() { Some(c) => { lay.insert(format!("Key_{}_{}", name, if m == 2 { "AltGr" } else { "Normal" }), json!(c.to_string())); slot.insert(*c, (*code, m)); } None => break 'fill }
+                } }
+            }
+            let dir = crate::verif_driver::user_dir();
+            std::fs::create_dir_all(&dir).unwrap();
+            let path = format!("{}/verif-layout-bn-names-{}.json", dir, shard);
+            std::fs::write(&path, serde_json::to_string(&raw).unwrap()).unwrap();
+            let fcfg = json!({"layout": path, "database_dir": crate::verif_driver::data_dir(), "phonetic_suggestion": false, "include_english": false,
+                "fixed_suggestion": true, "fixed_vowel": false, "fixed_chandra": false, "fixed_kar": false, "fixed_old_reph": false,
+                "fixed_numpad": true, "fixed_kar_order": false, "ansi": false, "smart_quote": false});
+            let mut names: Vec<&String> = bn.keys().collect();
+            names.sort();
+            let (mut reached, mut skipped) = (0usize, 0usize);
+            let mut bidx = 0usize;
+            if slot.len() == cps.len() {
+                for n in names {
+                    bidx += 1;
+                    if bidx % step != 0 || (bidx / step) % nshards != shard { continue; }
+                    let emojis: Vec<String> = bn[n].as_array().unwrap().iter().map(|x| x.as_str().unwrap().to_string()).collect();
+                    // a table key made of punctuation ("#", "*") is not a word: the split puts it outside the word part
+                    { let cs: Vec<char> = n.chars().collect(); let (_, w, _) = split::split_exec(&cs, true); if w != *n { skipped += 1; continue; } }
+                    for wrapped in [false, true] {
+                        let text = if wrapped { format!("({})", n) } else { n.clone() };
+                        let mut s = Sess::new(fcfg.clone());
+                        let mut last = None;
+                        for c in text.chars() { let (code, m) = slot[&c]; last = Some(s.code_mod(code, m, 0)); }
+                        let sg = match last { Some(x) => x, None => continue };
+                        if sg.is_lonely() || sg.get_auxiliary_text() != text { skipped += 1; s.finish(); continue; }
+                        o.cases += 1;
+                        reached += 1;
+                        let list = texts(&sg);
+                        let want: Vec<String> = emojis.iter().map(|x| if wrapped { format!("({})", x) } else { x.clone() }).collect();
+                        let pos: Vec<Option<usize>> = want.iter().map(|x| list.iter().position(|y| y == x)).collect();
+                        // the list is cut at nine candidates: then the emoji offered are the first ones of the table entry
+                        let present: Vec<usize> = pos.iter().flatten().cloned().collect();
+                        let all_or_cut = pos.iter().all(|p| p.is_some()) || (list.len() >= 9 && pos.iter().skip_while(|p| p.is_some()).all(|p| p.is_none()) && !present.is_empty());
+                        if !all_or_cut || present.windows(2).any(|w| w[0] >= w[1]) {
+                            o.fail(json!({"clause": "C18 Bengali emoji name (fixed mode) offers all its emoji, in table order, wrapped like the word", "name": n, "history": s.history(), "observed": list, "expected": want}));
+                        }
+                        s.finish();
+                        o.nontrivial += 1;
+                    }
+                }
+            }
+            let _ = std::fs::remove_file(&path);
+            o.sample(json!({"bengali_names_reached": reached, "bengali_names_skipped_composition_differs": skipped, "code_points": cps.len(), "key_slots_used": slot.len()}));
+            if reached == 0 { o.fail(json!({"clause": "C18 (machinery) no Bengali emoji name could be typed through the generated layout", "history": {"layout": path}})); }
         }
         o.done()
     }
